@@ -22,6 +22,7 @@ for prop, rule in (("C10", "Q1"), ("C15", "M1")):
         skey = full[len(fnp) + 1:]
         for b, kind, detail, ln, k, exp in PN.sites_in(f):
             if k == skey:
-                ent["guards"] = FL.guard_signature(F, f, b, d); n += 1
+                # an entry whose reason does not lean on the branch the site stands in keeps no conditions (it follows its site anywhere)
+                ent["guards"] = [] if ent.get("guard_free") else FL.guard_signature(F, f, b, d); n += 1
 json.dump(rv, open(p, "w"), indent=1)
 print("filled", n)
